@@ -36,7 +36,8 @@ CLASSIFIERS = {}
 
 def c12_included_needs_includer(f, k):
     """D35: the dedicated stream builds exactly the include shape; in the generated partitions only a missing type
-    (TypeNotFound / BuildError) under an import cycle of three or more out-of-line namespaces counts."""
+    (TypeNotFound / BuildError) under an import cycle of three or more namespaces (each schema importing only what
+    it uses) counts."""
     inp = f.get("input") or {}
     if inp.get("stream") == "included-needs-includer":
         return True
@@ -195,7 +196,7 @@ def run(ctx):
         meta = {"iface": ident, "documents": len(docs)}
         if plan.get("import_cycle3"):
             meta["import_cycle3"] = True
-            ctx.dist["import cycle of >= 3 out-of-line namespaces"] += 1
+            ctx.dist["import cycle of >= 3 namespaces (minimal imports)"] += 1
         ctx.case(common.canon(meta), len(docs) > 1)
         ctx.dist["documents=%d" % len(docs)] += 1
         for b, pl in plan["blocks"].items():
